@@ -111,6 +111,12 @@ func (e *Engine) Run(fn *ssa.Function, init *State, args []AV) []Path {
 			// a later iteration: values created from here on are new ones
 			it.st.iter++
 			if last != it.st.splits || it.count[it.b] > 4096 {
+				// a block inside a loop whose header was simply followed so far
+				// (its first tests were decided): not the place to generalise —
+				// the header is, at its next arrival
+				if !e.NoLoops && it.count[it.b] <= 4096 && !isLoopHeader(it.b) && insideLoop(it.b) {
+					goto visit
+				}
 				if e.NoLoops || it.pred == nil || !it.b.Dominates(it.pred) {
 					out = append(out, Path{St: it.st, Cut: it.b})
 					continue
@@ -439,6 +445,9 @@ func zeroAV(t types.Type) AV {
 func (e *Engine) load(st *State, loc string, t types.Type) AV {
 	if v, ok := st.mem[loc]; ok {
 		if v.Kind == KZero {
+			if isAggregate(t) && hasChildren(st, loc) {
+				return AV{Kind: KAgg, Loc: loc} // zero-initialised local with known parts
+			}
 			return zeroAV(t)
 		}
 		return v
@@ -502,6 +511,17 @@ func (e *Engine) store(st *State, loc string, v AV, in ssa.Instruction) {
 			if strings.HasPrefix(k, src) {
 				copies[dst+k[len(src):]] = x
 			}
+		}
+		// the whole-value marker of the destination: parts that are not copied
+		// read as the source's would — zero for a zero-initialised local source,
+		// nothing to add for a constant table (all parts known), unknown otherwise
+		switch m, has := st.mem[v.Loc]; {
+		case has && (m.Kind == KZero || m.Kind == KSym):
+			st.mem[loc] = m
+		case strings.HasPrefix(v.Loc, "G:"):
+			delete(st.mem, loc)
+		default:
+			st.mem[loc] = AV{Kind: KSym, Sym: fmt.Sprintf("copy(%s)@%s", v.Loc, st.inst())}
 		}
 		for k, x := range copies {
 			st.mem[k] = x
@@ -2286,6 +2306,25 @@ func derivedExact(st *State, term string) bool {
 		case m&(m+1) == 0:
 			return cur.max()/(m+1) <= 4096
 		case (m+low)&(m+low-1) == 0 && cur.max() < m+low:
+			return true
+		}
+	}
+	return false
+}
+
+func isLoopHeader(b *ssa.BasicBlock) bool {
+	for _, p := range b.Preds {
+		if b.Dominates(p) {
+			return true
+		}
+	}
+	return false
+}
+
+// insideLoop: b belongs to the natural loop of some header.
+func insideLoop(b *ssa.BasicBlock) bool {
+	for _, h := range b.Parent().Blocks {
+		if h != b && isLoopHeader(h) && h.Dominates(b) && loopInfoOf(h).blocks[b] {
 			return true
 		}
 	}
